@@ -396,7 +396,7 @@ func classifyDeath(log string) (class, sig string) {
 	switch {
 	case strings.Contains(log, "VERIF-HANG"):
 		return "hang", "hang"
-	case strings.Contains(log, "fatal error: runtime: out of memory") || strings.Contains(log, "fatal error: out of memory") || strings.Contains(log, "runtime: out of memory"):
+	case strings.Contains(log, "fatal error: runtime: out of memory") || strings.Contains(log, "fatal error: out of memory") || strings.Contains(log, "runtime: out of memory") || strings.Contains(log, "cannot allocate memory") || strings.Contains(log, "errno=12"):
 		class = "oom-small"
 		if m := reAlloc.FindStringSubmatch(log); m != nil {
 			if n, _ := strconv.ParseInt(m[1], 10, 64); n >= 1<<30 {
@@ -458,6 +458,11 @@ func merge(id string, sp spec, tier string, seed uint64, results []*shardResult,
 	inconclusive := []string{}
 	excludedAfterCrash := 0
 	resourceInconclusive := 0
+	type confirmResult struct {
+		d    death
+		died bool
+	}
+	oomConfirmed := map[string]confirmResult{}
 	suspectedHangs := []string{}
 	rule := ""
 	var assumptions []string
@@ -543,12 +548,21 @@ func merge(id string, sp spec, tier string, seed uint64, results []*shardResult,
 					inconclusive = append(inconclusive, fmt.Sprintf("shard %d ran into the harness memory limit", r.idx))
 					continue
 				}
-				d2, died := confirmDeath(id, r.dir, d, tier, seed, r.idx, len(results))
-				if !died {
+				// one confirmation per fault site is enough (each costs a
+				// process start and up to minutes under a large limit)
+				cached, seen := oomConfirmed[d.Sig]
+				if !seen {
+					d2, died := confirmDeath(id, r.dir, d, tier, seed, r.idx, len(results))
+					cached = confirmResult{d2, died}
+					oomConfirmed[d.Sig] = cached
+				}
+				if !cached.died {
 					resourceInconclusive++
 					continue
 				}
-				d = d2
+				j := d.Journal
+				d = cached.d
+				d.Journal = j
 			}
 			excludedAfterCrash++
 			if matchKnown(known, d.Sig, excluded) {
